@@ -12,6 +12,7 @@ import random
 import sys
 from fractions import Fraction
 
+import guard
 from labella.force import Force
 from labella.node import Node
 
@@ -57,11 +58,11 @@ def _project(force, nodes, labels, opts, U, lattice, exact):
         lid = i + 1
         walk = [n]
         cur = n
-        guard = 0
-        while cur.parent is not None and guard < 10000:
+        hops = 0
+        while cur.parent is not None and hops < 10000:
             walk.append(cur.parent)
             cur = cur.parent
-            guard += 1
+            hops += 1
         chainlen.append(len(walk) - 1)
         for d, obj in enumerate(walk):
             if id(obj) in ident:
@@ -145,7 +146,8 @@ def run_instance(inst, U, lattice):
     f = Force(dict(inst["opts"]))
     f.nodes(list(nodes))       # (the engine may sort the list it is given in place; keep ours in label order)
     try:
-        f.compute()
+        with guard.limit(900):
+            f.compute()
     except RecursionError:
         return {"error": "RecursionError", "n": len(labels)}
     except Exception as ex:       # the layout must be computed for every input of the quantifier
@@ -195,14 +197,16 @@ def run_relayout(rng):
                 if part or rng.random() < 0.3:
                     f.set_options({k: full[k] for k in part})
             f.nodes(list(nodes))
-            f.compute()
+            with guard.limit(900):
+                f.compute()
             intended = {k: full[k] for k in keys}
         else:
             base = first["minPos"] if first["minPos"] is not None else 0
             first["maxPos"] = base + rng.choice([10, 50, 100.5])     # narrow: forces several layers
             f = Force(first)
             f.nodes(list(nodes))
-            f.compute()
+            with guard.limit(900):
+                f.compute()
             delta = {"maxPos": inst["opts"]["maxPos"], "stubWidth": rng.choice([0, 1, 2.5]), "nodeSpacing": rng.choice([0, 1, 3])}
             if rng.random() < 0.3:
                 delta["algorithm"] = rng.choice(["overlap", "simple", "none"])
@@ -212,11 +216,13 @@ def run_relayout(rng):
             intended.update(delta)
             if rng.random() < 0.5:
                 f.set_options(delta)
-                f.compute()
+                with guard.limit(900):
+                    f.compute()
             else:
                 f = Force(dict(intended))
                 f.nodes(list(nodes) if rng.random() < 0.5 else list(reversed(nodes)))
-                f.compute()
+                with guard.limit(900):
+                    f.compute()
     except RecursionError:
         return {"error": "RecursionError", "n": len(labels)}
     except Exception as ex:
